@@ -10,13 +10,14 @@ Local Open Scope Z_scope.
 Definition TURNS : nat := 2.
 
 (* age: None while a side is still open; Some k once both are closed and k turns have passed since that was observed *)
-Definition dec_cobs (v : value) : option (bool * bool) :=
+(* per connection: (HTTP socket alive, transport reported the disconnect, still a child of the server) *)
+Definition dec_cobs (v : value) : option (bool * (bool * bool)) :=
   match v with
-  | VL [VI hl; VI d; VI _; VI _; VI _] => Some (as_bool hl, as_bool d)
+  | VL [VI hl; VI d; VI _; VI _; VI _; VI ow] => Some (as_bool hl, (as_bool d, as_bool ow))
   | _ => None
   end.
 
-Fixpoint dec_cobs_list (l : list value) : option (list (bool * bool)) :=
+Fixpoint dec_cobs_list (l : list value) : option (list (bool * (bool * bool))) :=
   match l with
   | [] => Some []
   | v :: r => match dec_cobs v, dec_cobs_list r with Some x, Some xs => Some (x :: xs) | _, _ => None end
@@ -28,15 +29,16 @@ Definition bump (is_turn : bool) (closed : bool) (a : option nat) : option nat :
   | None => if closed then Some O else None
   end.
 
-Fixpoint ages_step (is_turn dead : bool) (obs : list (bool * bool)) (ages : list (option nat)) : list (option nat) :=
+(* both sides closed: the disconnect was reported, or the server is gone and the socket was still its child *)
+Fixpoint ages_step (is_turn dead : bool) (obs : list (bool * (bool * bool))) (ages : list (option nat)) : list (option nat) :=
   match obs with
   | [] => []
-  | (_, d) :: r =>
+  | (_, (d, ow)) :: r =>
       let a := match ages with x :: _ => x | [] => None end in
-      bump is_turn (d || dead) a :: ages_step is_turn dead r (tl ages)
+      bump is_turn (d || (dead && ow)) a :: ages_step is_turn dead r (tl ages)
   end.
 
-Definition released_ok (x : (bool * bool) * option nat) : bool :=
+Definition released_ok (x : (bool * (bool * bool)) * option nat) : bool :=
   match x with
   | ((hl, _), Some k) => if Nat.leb TURNS k then negb hl else true
   | _ => true
